@@ -30,7 +30,7 @@ META = {
                  "marshal / unmarshal / encode / decode / strload / isoformat on pools of equal-but-distinct operands (both member orders "
                  "of one union, equal instants with different offsets, 1 / 1.0 / True, the same text as str / bytes), build-routine ops, "
                  "deep-mutate the previous result, deep-mutate the previous input, clear caches",
-        "thorough": "length <= 4 over all 6 rotations",
+        "thorough": "length <= 4 over two rotations of the 25-instance alphabet (budgeted: 240 s per first operation; what is not exhausted is reported inconclusive), all ordered pairs as in quick",
     },
     "assumptions": ["'cold process' is approximated by clearing every functools cache found in the loaded typelib modules",
                     "outcomes are compared by a canonical rendering (classes + values, utcoffset for aware temporals)"],
@@ -454,7 +454,7 @@ def make_fresh(timeout):
 def conditions(tier, seed):
     to = 40.0 if tier == "quick" else 240.0
     length = 3 if tier == "quick" else 4
-    seeds = [seed % 8] if tier == "quick" else list(range(8))
+    seeds = [seed % 8] if tier == "quick" else [seed % 8, (seed + 4) % 8]
     out = []
     for sd in seeds:
         n = len(alphabet(sd)) + len(SPECIAL)
